@@ -15,9 +15,16 @@ open Conduit.Funnel
 
 def root (r : Rec) : Nat := r.tag % 1000
 
-/-- destinations (task ids) of a tree -/
-partial def dests : TaskNode → List Nat
-  | .mk id k next => (if k == .dest then [id] else []) ++ (next.map dests).flatten
+mutual
+/-- destinations (task ids) of a tree (structural recursion through `destsL`, so that the kernel can
+unfold it: a `partial def` is opaque to proofs) -/
+def dests : TaskNode → List Nat
+  | .mk id k next => (if k == .dest then [id] else []) ++ destsL next
+/-- `(next.map dests).flatten` -/
+def destsL : List TaskNode → List Nat
+  | [] => []
+  | n :: ns => dests n ++ destsL ns
+end
 
 def replyOfCall (scripts : List (Nat × List Reply)) (task call : Nat) : Option Reply :=
   ((scripts.find? (·.1 == task)).map (·.2)).bind (·[call]?)
